@@ -4,6 +4,7 @@ package main
 
 import (
 	"fmt"
+	"strings"
 	"go/constant"
 	"go/token"
 	"go/types"
@@ -21,14 +22,22 @@ func (a *Act) instr(st *State, b *ssa.BasicBlock, instr ssa.Instruction) {
 	}
 	a.cur = st
 	if a.contract != nil && len(a.contract.atAssumes) > 0 && instr.Pos().IsValid() {
+		pp := tr.eng.fset.Position(instr.Pos())
 		_, src := a.srcLine(instr.Pos())
 		ns := normSrc(src)
 		for _, aa := range a.contract.atAssumes {
-			key := fmt.Sprintf("%p/%s", a, aa.src)
-			if aa.src == ns && !tr.atDone[key] {
-				if _, isDbg := instr.(*ssa.DebugRef); isDbg {
-					continue
-				}
+			if aa.src != ns {
+				continue
+			}
+			if _, isDbg := instr.(*ssa.DebugRef); isDbg {
+				continue
+			}
+			// which occurrence (by source line) of this text is it?
+			if aa.occ > 0 && a.occurrenceOf(pp.Filename, pp.Line, ns) != aa.occ {
+				continue
+			}
+			key := fmt.Sprintf("%p/%s/%d/%d", a, aa.src, aa.occ, pp.Line)
+			if !tr.atDone[key] {
 				tr.atDone[key] = true
 				e := &specEnv{a: a, tr: tr, pkg: a.contract.pkg, st: st, old: a.entryState, vars: map[string]specVal{}, errs: &tr.specErrs, preferLocals: true}
 				tr.assume(Implies(st.reach, e.evalBool(aa.cl.expr)), "assumed at «"+aa.src+"»: "+aa.cl.text)
@@ -602,6 +611,28 @@ func (a *Act) mapLen(st *State, mt *types.Map, m Term) Term {
 	l := Ite(Eq(m, "0"), "0", tr.read(tr.heapOf(st, ln), m))
 	l = tr.define("maplen", "Int", l)
 	tr.assume(Implies(st.reach, app(">=", l, "0")), "map length non-negative")
+	// finite-map cardinality lemma, instantiated for every pair of maps whose lengths are taken
+	dom, _, _ := tr.mapComps(mt)
+	hd := tr.heapOf(st, dom)
+	for _, p := range tr.mapLens {
+		if p.dom != hd || p.m == m {
+			continue
+		}
+		tr.fresh++
+		bv := fmt.Sprintf("q_card_%d", tr.fresh)
+		tr.boundVars = append(tr.boundVars, bv)
+		inA := And(Not(Eq(m, "0")), tr.read(hd, m, bv))
+		inB := And(Not(Eq(p.m, "0")), tr.read(hd, p.m, bv))
+		ks := a.sortOf(mt.Key())
+		sameDom := fmt.Sprintf("(forall ((%s %s)) (= %s %s))", bv, ks, inA, inB)
+		subAB := fmt.Sprintf("(forall ((%s %s)) (=> %s %s))", bv, ks, inA, inB)
+		subBA := fmt.Sprintf("(forall ((%s %s)) (=> %s %s))", bv, ks, inB, inA)
+		tr.boundVars = tr.boundVars[:len(tr.boundVars)-1]
+		tr.assume(Implies(sameDom, Eq(l, p.l)), "finite maps: equal domains have equal size")
+		tr.assume(Implies(And(Eq(l, p.l), subAB), sameDom), "finite maps: a subset of equal size is the whole set")
+		tr.assume(Implies(And(Eq(l, p.l), subBA), sameDom), "finite maps: a subset of equal size is the whole set")
+	}
+	tr.mapLens = append(tr.mapLens, mapLenRec{m: m, l: l, dom: hd})
 	return l
 }
 
@@ -633,11 +664,33 @@ func (a *Act) next(st *State, in *ssa.Next) {
 	mt := rng.X.Type().Underlying().(*types.Map)
 	m := a.val(rng.X)
 	dom, val, _ := tr.mapComps(mt)
-	k := tr.freshConst(a.prefix+in.Name()+"_k", a.sortOf(mt.Key()))
-	tr.assume(Implies(And(st.reach, ok), And(Not(Eq(m, "0")), tr.read(tr.heapOf(st, dom), m, k))), "range key is in the map's domain")
+	ks := a.sortOf(mt.Key())
+	k := tr.freshConst(a.prefix+in.Name()+"_k", ks)
+	inDom := func(x Term) Term { return And(Not(Eq(m, "0")), tr.read(tr.heapOf(st, dom), m, x)) }
+	tr.assume(Implies(And(st.reach, ok), inDom(k)), "range key is in the map's domain")
 	// ranging over an empty/nil map yields nothing
 	ml := a.mapLen(st, mt, m)
 	tr.assume(Implies(And(st.reach, ok), app(">", ml, "0")), "non-empty map when range yields")
+	// visited-set ghost: keys already yielded by this range loop
+	li := a.loops[in.Block()]
+	if li != nil && li.visName != "" {
+		vis := li.visName
+		li.visBack = func(x Term) Term { return Or(app(vis, x), Eq(x, k)) }
+		tr.assume(Implies(And(st.reach, ok), Not(app(vis, k))), "range yields each key once")
+		tr.fresh++
+		bv := fmt.Sprintf("q_rk_%d", tr.fresh)
+		tr.boundVars = append(tr.boundVars, bv)
+		all := fmt.Sprintf("(forall ((%s %s)) %s)", bv, ks, Implies(inDom(bv), app(vis, bv)))
+		tr.boundVars = tr.boundVars[:len(tr.boundVars)-1]
+		tr.assume(Implies(And(st.reach, Not(ok)), all), "range ends when every key has been yielded")
+		// visited keys are in the domain
+		tr.fresh++
+		bv2 := fmt.Sprintf("q_rk_%d", tr.fresh)
+		tr.boundVars = append(tr.boundVars, bv2)
+		sub := fmt.Sprintf("(forall ((%s %s)) %s)", bv2, ks, Implies(app(vis, bv2), inDom(bv2)))
+		tr.boundVars = tr.boundVars[:len(tr.boundVars)-1]
+		tr.assume(Implies(st.reach, sub), "yielded keys belong to the map's domain")
+	}
 	v := tr.define(a.prefix+in.Name()+"_v", a.sortOf(mt.Elem()), tr.read(tr.heapOf(st, val), m, k))
 	a.tups[in] = []Term{ok, k, v}
 	a.assumeWF(st, mt.Elem(), v, 1)
@@ -684,4 +737,32 @@ func closureLocalOnly(mc *ssa.MakeClosure) bool {
 		}
 	}
 	return true
+}
+
+// occurrenceOf: 1-based index of the source line among the lines of the function with the same text.
+func (a *Act) occurrenceOf(file string, line int, text string) int {
+	fn := a.fn
+	first, last := 1<<30, 0
+	for _, b := range fn.Blocks {
+		for _, in := range b.Instrs {
+			if in.Pos().IsValid() {
+				p := a.tr.eng.fset.Position(in.Pos())
+				if p.Filename == file {
+					if p.Line < first {
+						first = p.Line
+					}
+					if p.Line > last {
+						last = p.Line
+					}
+				}
+			}
+		}
+	}
+	n := 0
+	for l := first; l <= last && l <= line; l++ {
+		if normSrc(strings.TrimSpace(a.tr.eng.sourceLine(file, l))) == text {
+			n++
+		}
+	}
+	return n
 }
